@@ -249,7 +249,7 @@ func describe(c Case) string {
 	var parts []string
 	for _, p := range c.Plugins {
 		hs, gen, bye := p.Script.Kinds()
-		s := fmt.Sprintf("%s[hs=%s gen=%s bye=%s", p.Name, hs, gen, bye)
+		s := fmt.Sprintf("%s[hs=%s gen=%s bye=%s", p.ID(), hs, gen, bye)
 		if p.Script.Handshake.FeatureList {
 			s += fmt.Sprintf(" features=%v", p.Script.Handshake.Features)
 		}
@@ -275,7 +275,7 @@ func describe(c Case) string {
 func traces(c Case, o *fplab.Obs) string {
 	var trs []string
 	for _, p := range c.Plugins {
-		trs = append(trs, p.Name+": "+trace(fplab.Of(o.Events, p.Name)))
+		trs = append(trs, p.ID()+": "+trace(fplab.Of(o.Events, p.ID())))
 	}
 	return strings.Join(trs, " | ")
 }
@@ -318,7 +318,7 @@ func judge(c Case, o *fplab.Obs) error {
 	ambiguous := false
 
 	for i, p := range c.Plugins {
-		evs := fplab.Of(o.Events, p.Name)
+		evs := fplab.Of(o.Events, p.ID())
 		if len(evs) == 0 {
 			continue // never started: nothing to shut down
 		}
@@ -460,6 +460,11 @@ func nontrivial(c Case) bool {
 
 func classes(c Case, o *fplab.Obs) []string {
 	cls := []string{"unit:" + c.Src, fmt.Sprintf("plugins:%d", len(c.Plugins))}
+	for _, p := range c.Plugins {
+		if p.Instance != "" {
+			cls = append(cls, "further-instance-of-a-plugin")
+		}
+	}
 	if c.CLI != "" {
 		cls = append(cls, "cli:"+c.CLI)
 		if o != nil {
@@ -570,7 +575,7 @@ func runCase(t ev.TB, unit string, c Case) {
 				m["stderr"] = clipS(o.Stderr, 300)
 				var trs []string
 				for _, p := range c.Plugins {
-					trs = append(trs, p.Name+": "+trace(fplab.Of(o.Events, p.Name)))
+					trs = append(trs, p.ID()+": "+trace(fplab.Of(o.Events, p.ID())))
 				}
 				m["traces"] = trs
 			}
@@ -718,6 +723,22 @@ func TestRandomScripts(t *testing.T) {
 		order := rapid.Permutation(pluginNames).Draw(t, "names")
 		c := Case{Src: "random", Thrift: thriftSrc}
 		for i := 0; i < n; i++ {
+			// one later plugin in four is a further instance of an earlier
+			// one: the same executable with other arguments and a script of
+			// its own (its files go to a directory of its own: a path
+			// conflict is C17's business)
+			if i > 0 && rapid.IntRange(0, 3).Draw(t, fmt.Sprintf("plugin%d_is_instance", i)) == 0 {
+				name := c.Plugins[rapid.IntRange(0, i-1).Draw(t, fmt.Sprintf("plugin%d_instance_of", i))].Name
+				p := genPlugin(t, name, bias)
+				p.Instance = fmt.Sprintf("i%d", i+1)
+				files := map[string][]byte{}
+				for k, v := range p.Script.Generate.Files {
+					files[p.Instance+"-"+k] = v
+				}
+				p.Script.Generate.Files = files
+				c.Plugins = append(c.Plugins, p)
+				continue
+			}
 			c.Plugins = append(c.Plugins, genPlugin(t, order[i], bias))
 		}
 		// a quarter of the runs vary the rest of the command line
